@@ -179,6 +179,9 @@ def weightedErrorEval (elemLoss weight : Nat → Nat → α) (batchSizes : List 
 /-! ### Regularizers -/
 def oneNorm (x : List α) : α := sumL (x.map sabs)
 def twoNorm (x : List α) : α := half * normSqr x
+/-- masked variants (`setMask`): `norm_1(input * mask)` and `0.5 * sum(mask * sqr(input))` -/
+def oneNormMasked (mask x : List α) : α := sumL (List.zipWith (fun m xi => sabs (xi * m)) mask x)
+def twoNormMasked (mask x : List α) : α := half * sumL (List.zipWith (fun m xi => m * sqr xi) mask x)
 def sign (a : α) : α := if a < 0 then -1 else if 0 < a then 1 else 0
 def regularizedEval (value strength reg : α) : α := value + strength * reg
 
